@@ -81,3 +81,27 @@ Theorem C10_source_threshold : forall c now has_log has_stat e,
   run_prepare_read fn_TraitOf_PrepareRead true c now has_log has_stat true e = Some (model_found c now e has_stat).
 Proof. intros; split; [exact (tie_prepare_read_found _ _ _ _ _) | exact (tie_prepare_read_of_found _ _ _ _ _)]. Qed.
 Print Assumptions C10_source_threshold.
+
+From Cache Require Import TieCompose.
+
+(* composed: the expiry instant the SOURCE computes for a write (translated Trait.TTL, then translated Trait.expireAt) is
+   the model's write_expiry with the jitter term Duration(float64(T)*ExpirationJitter*(rand.Float64()-0.5)), hence lies
+   within the documented bounds whenever the float-to-integer conversion keeps that term within |T|*J/2 (+ slack) —
+   the one assumption about IEEE arithmetic that remains *)
+Theorem C10_source_write_expiry : forall ftrunc c ctx now ttl inc r,
+  run_trait_ttl ftrunc c ctx = Some (ttl, inc) ->
+  run_expire_at ttl now = Some r ->
+  r.2 = write_expiry c ctx now (jitter_formula ftrunc (effective_ttl c ctx)).
+Proof. exact source_write_expiry. Qed.
+Print Assumptions C10_source_write_expiry.
+
+Theorem C10_source_expiry_within_bounds : forall ftrunc c ctx now ttl inc r Jn Jd,
+  0 < Jd -> 0 < Jn <= Jd ->
+  run_trait_ttl ftrunc c ctx = Some (ttl, inc) ->
+  run_expire_at ttl now = Some r ->
+  let T := effective_ttl c ctx in
+  ~ (ctx = 0 /\ eff_ttl c = unlimited) -> c_jitter c = true -> T <> 0 ->
+  jit_ok Jn Jd T (jitter_formula ftrunc T) ->
+  r.2 <> now /\ 2 * Jd * Z.abs (r.2 - (now + T)) <= Z.abs T * Jn + 2 * Jd * slack T.
+Proof. exact source_expiry_within_bounds. Qed.
+Print Assumptions C10_source_expiry_within_bounds.
